@@ -11,7 +11,7 @@
 From Coq Require Import ZArith List String Bool.
 From Gigue Require Import Types Bits Isa Enc GenTables Builder BuilderTies Samplers Generator Machine MachineLemmas
   SplitProofs FragProofs GenLemmas ImageSem CtorSpec C12Defs C12Proofs GenWF GenWFProps SliceLemmas GenWF2 GenWF3 GenWF2Props
-  GenWF5 GenWF6 MethodContract WholeImage Loader Witness LoaderWitness CallFrameRimi MethodContractRimi WholeImageRimi LoaderRimi RimiFullExec WholeImageRimiFull LoaderRimiFull.
+  GenWF5 GenWF6 MethodContract WholeImage Loader Witness LoaderWitness CallFrameRimi MethodContractRimi WholeImageRimi LoaderRimi RimiFullExec WholeImageRimiFull LoaderRimiFull GenWF9F WalkK FixerTamper FixerCall MethodContractFixer WholeImageFixer LoaderFixer.
 Import ListNotations.
 Open Scope Z_scope.
 
@@ -98,6 +98,20 @@ Proof.
   exists s', eh. auto.
 Qed.
 
+(* the same for the FIXER variant (the trap instruction of every checked return is skipped) *)
+Theorem C06_executed_count_fixer : forall c script img,
+  successful c script img -> c_variant c = GFixer -> c_data_reg c <> 6 ->
+  forall L s0, Init c img (xNtot c img) L s0 -> code_lo L = int_start_al c ->
+    code_hi L - code_lo L < 2147483648 - 2048 -> pics_encodable img ->
+    (forall r o, In (r, o) int_slots -> 0 <= rget s0 r < W64) ->
+    exists s' eh, map fst eh = im_elements img /\ Forall (fun x => xhit_ok (fst x) (snd x)) eh /\
+      run (gv c) L (ximage_steps img eh) s0 = (Next s', ximage_steps img eh) /\ pc s' = halt_at L.
+Proof.
+  intros c script img Hs Hb H6 L s0 HI Hat Hsm Hp Hr.
+  destruct (fixer_image_from_files c script img Hs Hb H6 L s0 HI Hat Hsm Hp Hr) as (s' & eh & E1 & E2 & R & P & _).
+  exists s', eh. auto.
+Qed.
+
 (* the per-method count is ImageSem.count_method (the quantity the dynamic judge
    computes from the structured image), for the non-FIXER variants *)
 Theorem C06_steps_is_static_count : forall c script img,
@@ -149,6 +163,7 @@ Print Assumptions C06_no_backward_transfer.
 Print Assumptions C06_executed_count_plain.
 Print Assumptions C06_executed_count_rimiss.
 Print Assumptions C06_executed_count_rimifull.
+Print Assumptions C06_executed_count_fixer.
 Print Assumptions C06_steps_is_static_count.
 Print Assumptions C06_method_steps_partial.
 Print Assumptions C06_nonvacuous.
